@@ -251,8 +251,9 @@ Section Tsv.
         end
     end.
 
-  (* ---------------- Table(data, obs_ids, sample_ids, obs_md): shape from the ids,
-     coo_matrix refuses an index outside the shape, errcheck refuses duplicates --------------- *)
+  (* ---------------- Table(data, obs_ids, sample_ids, obs_md): shape from the ids;
+     _check_coordinates (repair 10b5e58d) refuses a coordinate outside that shape with a
+     TableException (it was scipy's ValueError before), errcheck refuses duplicates -------- *)
   Definition lookup3 (ts : list triple) (i j : nat) : Z :=
     match find (fun t => Nat.eqb (fst (fst t)) i && Nat.eqb (snd (fst t)) j) ts with
     | Some t => snd t
@@ -278,7 +279,7 @@ Section Tsv.
                    end in
         let n := length (e_oids x) in
         let m := length (e_sids x) in
-        if negb (in_shape n m (e_data x)) then RErr E_VALUE
+        if negb (in_shape n m (e_data x)) then RErr E_TABLE
         else if tdup (e_oids x) || tdup (e_sids x) then RErr E_TABLE
         else ROk (mkX (e_oids x) (e_sids x) (dense_of n m (e_data x)) omd)
     end.
